@@ -625,7 +625,14 @@ class Prover:
                     if only_shape is not None and k != only_shape:
                         continue
                     ur.shapes += 1
-                    self._prove_shape(c, shape, ur)
+                    try:
+                        self._prove_shape(c, shape, ur)
+                    except Exception as ex:
+                        # the ENGINE failed on this code (not the code under contract: its exceptions are modelled outcomes).
+                        # Nothing symbolic is claimed for the unit; the native side below and the bounded stand-ins still run.
+                        tb = "".join(traceback.format_exception(type(ex), ex, ex.__traceback__))[-700:]
+                        ur.native["crosscheck_mismatch"].append(f"engine crashed while executing the code symbolically: {type(ex).__name__}: {ex} :: {tb}"[:900])
+                        break
                     if len([o for o in ur.obls if o.status == "violated"]) >= 3:
                         break
             if native:
